@@ -24,6 +24,7 @@ import GraphiqModel.Proofs.MixtureDMLockstep
 import GraphiqModel.Proofs.MixtureDMTotal
 import GraphiqModel.Proofs.MixtureDMPhysMeas
 import GraphiqModel.Proofs.MixtureDMZero
+import GraphiqModel.Proofs.MixtureDMWeights
 namespace Graphiq.C06
 open Graphiq Graphiq.Noise Graphiq.DM
 
@@ -110,6 +111,14 @@ theorem d37_repaired (p : Rat) (q : Nat) (t : Tab) (hp0 : 0 ≤ p) (hp1 : p ≤ 
 theorem every_branch_valid (ns : Bool) (ne np nc : Nat) (det : Bool) (ops : List COp)
     (hw : ∀ op ∈ ops, OpWF (ne + np) np op) (s : StabSt) (h : compileStab ns ne np nc det ops = .ok s) :
     ∀ x ∈ s.mix, x.2.n = ne + np ∧ x.2.Valid := compileStab_ok ns ne np nc det ops hw s h
+
+/-- **every weight `p_k` is non-negative**: any circuit — measurements, classically controlled operations and resets included,
+    any placement — with photon-loss rates `≤ 1` (the depolarizing filter keeps only positive factors, whatever the probability):
+    whenever the stabilizer compile returns, the mixture is a genuine sub-normalised probability mixture -/
+theorem every_weight_nonneg (ns : Bool) (ne np nc : Nat) (det : Bool) (ops : List COp)
+    (hw : ∀ op ∈ ops, Graphiq.MixDM.LossLe1 op.n0 ∧ Graphiq.MixDM.LossLe1 op.n1) (s : StabSt)
+    (h : compileStab ns ne np nc det ops = .ok s) : ∀ x ∈ s.mix, 0 ≤ x.1 :=
+  Graphiq.MixDM.compileStab_nonneg ns ne np nc det ops hw s h
 
 /-! ## (c) Density matrix = Σ p_k ρ(T_k), measurement-free circuits, every number of qubits -/
 
